@@ -119,7 +119,7 @@ def run(ctx):
                     if t.value.id == "self":
                         ok = u.qual.endswith("__init__") or u.uid in WRITERS_SELF
                     else:
-                        ok = u.uid in WRITERS_OTHER
+                        ok = u.uid in WRITERS_OTHER or program.only_reached_from(u.uid, set(WRITERS_OTHER))  # (or a helper only the reviewed sites call)
                     ctx.check(ok, "R11.2", u.uid, f"write `{short(t)}` at a reviewed site",
                               msg=f"{u.uid}: `{short(n)}` re-targets an evaluator's globals/context outside the reviewed sites "
                               f"{sorted(WRITERS_OTHER) + sorted(WRITERS_SELF)}: code of one file could run against another file's globals",
